@@ -6,13 +6,14 @@ import ObiVerif.Model.FlatFile
 needing that many bytes to be available: a shorter stream is taken as plain), then drops a UTF-8 byte-order
 mark.  `OBIMimeTypeGuesser` reads up to 1 MiB into a zero-filled buffer and calls `mimetype.Detect(buf)`, which
 hands the first 3072 bytes (`mimetype`'s read limit; zero padding included for a shorter file) to the detectors.
-The five OBITools detectors are attached, in this order, to `text/plain` and to the root
-`application/octet-stream`: fasta `^>[^ ]`, fastq `^@[^ ].*\n([^ ]+\n\+|[^ \n]+$)` (second alternative: patch
-`C01-fastq-sniff-long-read`), ecopcr2 (prefix), genbank (prefix `LOCUS       ` or
+The five OBITools detectors are attached, in this order (asked in the REVERSE order, see `guessRaw`), to
+`text/plain` and to the root `application/octet-stream`: fasta `^>[^ ]`, fastq `^@[^ ].*\n([^ ]+\n\+|[^ \n]*\n?$)` (second alternative: patches
+`C01-fastq-sniff-long-read` and `C01-fastq-sniff-window-edge`), ecopcr2 (prefix), genbank (prefix `LOCUS       ` or
 `^[^ ]* +Genetic Sequence Data Bank *\n`), embl (prefix `ID   `); then csv.  `guess` = the first of the five that
-fires.  NOT modelled (trusted, compared with the real code on every generated file): the built-in detectors of
-gabriel-vasile/mimetype that are asked before (binary magic numbers; html, xml, svg, json, … for text without
-NUL byte); the harness marks the cases where one of them claims the file.
+fires in the order they are asked.  NOT modelled: the csv detector (asked after the five since patch
+`C01-sniff-csv-asked-last`; before it, it was asked first and claimed FASTQ files with commas and quotes in
+their titles).  The built-in detectors of gabriel-vasile/mimetype (binary magic numbers; html, xml, svg,
+json, …) are asked AFTER the five: whenever the real code answers one of them the model must say `other`.
 -/
 namespace ObiVerif.Sniff
 open ObiVerif.Chunk ObiVerif.Parse
@@ -57,16 +58,29 @@ def scanPlus : Seq → Bool → Bool
     else if consumed && c == 10 && rest.head? == some 43 then true
     else scanPlus rest true
 
-/-- `[^ \n]+$`: `u` is not empty and has neither blank nor line feed up to the end of the window -/
-def lineToEnd (u : Seq) : Bool := !u.isEmpty && u.all (fun c => c != 32 && c != 10)
+/-- `[^ \n]*\n?$`: neither blank nor line feed up to the end of the window, except a line feed as very last
+byte (patch `C01-fastq-sniff-window-edge`) -/
+def lineToEnd (u : Seq) : Bool :=
+  match u.dropWhile (fun c => c != 32 && c != 10) with
+  | [] => true
+  | [c] => c == 10
+  | _ => false
 
-def fastqDetect : Seq → Bool
+/-- `[^ \n]+$`, the second alternative before patch `C01-fastq-sniff-window-edge` (kept for the theorem that
+shows what the patch repairs): `u` is not empty and has neither blank nor line feed up to the end of the window -/
+def lineToEndOld (u : Seq) : Bool := !u.isEmpty && u.all (fun c => c != 32 && c != 10)
+
+def fastqDetectWith (lte : Seq → Bool) : Seq → Bool
   | 64 :: c :: t =>
     c != 32 &&
     (match t.dropWhile (· != 10) with
-     | 10 :: u => scanPlus u false || lineToEnd u
+     | 10 :: u => scanPlus u false || lte u
      | _ => false)
   | _ => false
+
+def fastqDetect : Seq → Bool := fastqDetectWith lineToEnd
+/-- the detector before patch `C01-fastq-sniff-window-edge` -/
+def fastqDetectOld : Seq → Bool := fastqDetectWith lineToEndOld
 
 /-- `#@ecopcr-v2` -/
 def ecopcrKey : Seq := [35, 64, 101, 99, 111, 112, 99, 114, 45, 118, 50]
@@ -81,16 +95,26 @@ def gsdbDetect (raw : Seq) : Bool :=
 
 def genbankDetect (raw : Seq) : Bool := hasPrefix gbLOCUS raw || gsdbDetect raw
 
+/-- `mimetype.MIME.Extend` PREPENDS the new node to the children of its parent (`m.children = append([]*MIME{c},
+m.children...)`) and `match` asks the children in order: the detectors attached last are asked first, all of
+them before the built-in detectors of the library.  Order of the questions (patch `C01-sniff-csv-asked-last`:
+csv is attached first, hence asked last): embl, genbank, ecopcr2, fastq, fasta, then csv (not modelled:
+`encoding/csv` reader over the window; only asked when the five said no), then the built-in detectors.
+`guessRaw` = the first of the five that fires. -/
 def guessRaw (raw : Seq) : Mime :=
-  if fastaDetect raw then .fasta
-  else if fastqDetect raw then .fastq
-  else if hasPrefix ecopcrKey raw then .ecopcr2
+  if hasPrefix emID raw then .embl
   else if genbankDetect raw then .genbank
-  else if hasPrefix emID raw then .embl
+  else if hasPrefix ecopcrKey raw then .ecopcr2
+  else if fastqDetect raw then .fastq
+  else if fastaDetect raw then .fasta
   else .other
 
 /-- the reader `ReadSequencesFromFile` dispatches to, for the (decompressed, BOM-free) payload -/
 def guess (payload : Seq) : Mime := guessRaw (window payload)
+
+/-- `Ropen` (`Buf`) + `OBIMimeTypeGuesser` on the bytes `d` of a file: `none` = a decompressor is put in front
+of the stream (what it delivers is then sniffed in the same way: `guess (stripBOM payload)`) -/
+def sniffFile (d : Seq) : Option Mime := if magic d != .plain then none else some (guess (stripBOM d))
 
 def Mime.name : Mime → String
   | .fasta => "text/fasta" | .fastq => "text/fastq" | .ecopcr2 => "text/ecopcr2"
